@@ -117,6 +117,8 @@ def run_case(case):
                     out = sc.op_rebase_delete_recreate()
                 elif op == "cherry" and rng.random() < 0.2:
                     out = sc.op_cherry_pick_concluded_by_commit()
+                elif op == "cherry" and (rng.random() < 0.25 or os.environ.get("VERIF_C02_FORCE") == "refused"):
+                    out = sc.op_cherry_pick_refused_command_while_stopped()
                 else:
                     out = {"rebase": sc.op_rebase, "cherry": sc.op_cherry_pick, "squash": sc.op_squash_merge, "merge": sc.op_merge, "ci": sc.op_ci_rewrite}[op]()
             elif op == "noop":
